@@ -169,33 +169,41 @@ def setNameValue (d : Bytes) (obj : Nat) : P PRes := do
 /-- `obj.opcode = op` -/
 def setOpcode (obj op : Nat) : P Unit := updObj obj fun o => { o with opcode := op }
 
+/-- the tail of `parseSimpleArg`: `obj.infoIndex = pOpcodeTableIndex(obj.opcode, true); return obj, res` -/
+def finishSimpleArg (obj : Nat) (res : PRes) : P (Option Nat × PRes) := do
+  let o ← getObj obj
+  updObj obj fun o' => { o' with infoIndex := pOpcodeTableIndex o.opcode true }
+  pure (some obj, res)
+
+/-- a numeric simple argument: `obj.opcode = op; obj.value, res = parseNumConstant(n)` -/
+def simpleNum (d : Bytes) (obj op n : Nat) : P (Option Nat × PRes) := do
+  setOpcode obj op
+  let res ← setNumValue d obj n
+  finishSimpleArg obj res
+
+/-- `case pArgTypeString:` -/
+def simpleString (d : Bytes) (obj : Nat) : P (Option Nat × PRes) := do
+  setOpcode obj opStringPrefix
+  let res ← setStringValue d obj
+  finishSimpleArg obj res
+
+/-- `case pArgTypeNameString:` -/
+def simpleName (d : Bytes) (obj : Nat) : P (Option Nat × PRes) := do
+  setOpcode obj opIntNamePath
+  let res ← setNameValue d obj
+  finishSimpleArg obj res
+
 /-- `parseSimpleArg(argType)` -/
 def parseSimpleArg (d : Bytes) (argType : Nat) : P (Option Nat × PRes) := do
   let obj ← newObject 0
   let off ← lex offset
   updObj obj fun o => { o with amlOffset := off }
-  let finish (res : PRes) : P (Option Nat × PRes) := do
-    let o ← getObj obj
-    updObj obj fun o' => { o' with infoIndex := pOpcodeTableIndex o.opcode true }
-    pure (some obj, res)
-  if argType = argTypeByteData then do
-    setOpcode obj opBytePrefix
-    finish (← setNumValue d obj 1)
-  else if argType = argTypeWordData then do
-    setOpcode obj opWordPrefix
-    finish (← setNumValue d obj 2)
-  else if argType = argTypeDwordData then do
-    setOpcode obj opDwordPrefix
-    finish (← setNumValue d obj 4)
-  else if argType = argTypeQwordData then do
-    setOpcode obj opQwordPrefix
-    finish (← setNumValue d obj 8)
-  else if argType = argTypeString then do
-    setOpcode obj opStringPrefix
-    finish (← setStringValue d obj)
-  else if argType = argTypeNameString then do
-    setOpcode obj opIntNamePath
-    finish (← setNameValue d obj)
+  if argType = argTypeByteData then simpleNum d obj opBytePrefix 1
+  else if argType = argTypeWordData then simpleNum d obj opWordPrefix 2
+  else if argType = argTypeDwordData then simpleNum d obj opDwordPrefix 4
+  else if argType = argTypeQwordData then simpleNum d obj opQwordPrefix 8
+  else if argType = argTypeString then simpleString d obj
+  else if argType = argTypeNameString then simpleName d obj
   else pure (none, .failed)
 
 /-- loop state of `parseFieldElements` -/
